@@ -38,6 +38,24 @@ class BoomServer(aioftp.Server):
         raise RuntimeError("handler failure injected")
 
 
+class SlowManager(aioftp.MemoryUserManager):
+    """a user manager that awaits (as one backed by a database would) and can fail"""
+
+    def __init__(self, users, delay):
+        super().__init__(users)
+        self.delay = delay
+
+    async def get_user(self, login):
+        await asyncio.sleep(self.delay)
+        if login == "boomuser":
+            raise RuntimeError("user database unavailable")
+        return await super().get_user(login)
+
+    async def notify_logout(self, user):
+        await asyncio.sleep(self.delay)
+        return await super().notify_logout(user)
+
+
 def resolve_user(users, login):
     for u in users:
         if u.login == login:
@@ -58,7 +76,8 @@ async def scenario(net, hyg, plan):
     users.append(aioftp.User("a", "pa", base_path="/", maximum_connections=plan["ulimits"].get("a")))
     users.append(aioftp.User("b", None, base_path="/", maximum_connections=plan["ulimits"].get("b")))
     w = W.World(net, users=users)
-    w.server = BoomServer(users, path_io_factory=w.factory, maximum_connections=smax, idle_timeout=plan.get("idle_timeout"))
+    um = SlowManager(users, plan["slow_manager"]) if plan.get("slow_manager") else users
+    w.server = BoomServer(um, path_io_factory=w.factory, maximum_connections=smax, idle_timeout=plan.get("idle_timeout"))
     AC = aioftp.server.AvailableConnections
     orig_acq, orig_rel = AC.acquire, AC.release
 
@@ -107,6 +126,14 @@ async def scenario(net, hyg, plan):
                                  "msg": f"after event {idx}: {admitted_now()} sessions hold a 220 and are still being served, limit {smax}"})
         d.extra_hook = hook
         await d.run()
+        closed_by_cut = bool(plan.get("cut")) and plan["cut"]["action"].endswith("+close") and d.cut_done
+        if closed_by_cut:
+            for _ in range(60):
+                if d.close_task is not None:
+                    break
+                await asyncio.sleep(0)
+            await asyncio.wait([d.close_task], timeout=10)
+            d.finish_peers()
         if plan.get("close_server"):
             await asyncio.wait([asyncio.ensure_future(server.close())], timeout=10)
         # refusals must carry the right code; attachments from the transcript
@@ -117,7 +144,7 @@ async def scenario(net, hyg, plan):
             oi = 0
             att = None
             for st, out in zip(script, s.outcomes):
-                if st[0] == "connect" and out and out[0] not in ("220", "421"):
+                if st[0] == "connect" and out and out[0] not in ("220", "421", "CONNERR", "EOF"):
                     viol.append({"key": "greeting-code", "msg": f"session {j}: greeting {out}"})
                 if st[0] == "connect" and out[:1] == ["421"]:
                     any_abnormal = True
@@ -138,7 +165,7 @@ async def scenario(net, hyg, plan):
         quiet = await net.quiesce(plan.get("idle_timeout") or 3.0)
         if not quiet:
             return {"inconclusive": "no quiescence"}
-        live = [s for s in d.sessions if s.alive and not plan.get("close_server")]
+        live = [s for s in d.sessions if s.alive and not plan.get("close_server") and not closed_by_cut]
         # sessions are alive only if their script ended without quit/cut
         open_admitted = [s for s in live if s.flat_codes()[:1] == ["220"] and not (plan.get("idle_timeout"))]
         mon["counter_at_quiescence"] += 1
@@ -167,6 +194,9 @@ async def scenario(net, hyg, plan):
         # black-box: after everybody is gone the full limit is available again
         d.finish_peers()
         await net.quiesce(1.0)
+        if closed_by_cut:
+            # the Server object can be started again: its whole limit must be there
+            await server.start("127.0.0.1", 2121)
         if not plan.get("close_server"):
             mon["blackbox_readmission"] += 1
             fresh = []
@@ -250,7 +280,8 @@ def run_case(case):
     n = 0
     for k in range(res0["nevents"]):
         for action in case["actions"]:
-            plan = dict(base, cut={"k": k, "action": action, "who": case.get("who", 0)})
+            plan = dict(base, cut={"k": k, "action": action, "who": case.get("who", 0), "zero_latency": action.endswith("+close"),
+                                   "close_after": case.get("close_after", 0)})
             res = run_plan(plan)
             if not merge(res, plan, f"{action}@{k}"):
                 return out
@@ -320,4 +351,25 @@ def gen_cases(tier, seed):
                               "plan": {"seed": seed, "server_limit": smax, "ulimits": ul, "anonymous": anon,
                                        "scripts": [sc, [["connect"], ["cmd", "USER a"], ["sleep", 0.05], ["quit"]]],
                                        "offsets": [0, 0.0031]}})
+    # the session ends by itself and Server.close() lands j loop iterations later (inside its clean-up); slow user manager
+    for j in (range(0, 12) if tier == "thorough" else range(0, 12, 2)):
+        for sm in (None, 0.002):
+            cases.append({"kind": "enum", "actions": ["rst+close", "quit+close"], "who": 0, "close_after": j,
+                          "plan": {"seed": seed, "server_limit": 2, "ulimits": {"a": 1, "b": 2}, "anonymous": False, "slow_manager": sm,
+                                   "scripts": [[["connect"], ["cmd", "USER a"], ["cmd", "PASS pa"], ["cmd", "USER b"], ["sleep", 0.01], ["quit"]],
+                                               [["connect"], ["cmd", "USER b"], ["sleep", 0.05], ["quit"]]],
+                                   "offsets": [0, 0.0031]}})
+    # slow / failing user manager under cuts and schedules
+    for sc in scripts:
+        cases.append({"kind": "enum", "actions": ["rst", "fin"], "who": 0,
+                      "plan": {"seed": seed, "server_limit": 2, "ulimits": {"a": 1, "b": 1}, "anonymous": False, "slow_manager": 0.003,
+                               "scripts": [sc + [["cmd", "USER boomuser"]], [["connect"], ["cmd", "USER a"], ["sleep", 0.05], ["quit"]]],
+                               "offsets": [0, 0.0031]}})
+    for i in range(60 if tier == "quick" else 1500):
+        m = rng.randint(2, 5)
+        cases.append({"kind": "single", "plan": {
+            "seed": seed * 7 + i, "server_limit": rng.choice([None, 2, 3]), "ulimits": {k: rng.choice([1, 2]) for k in ("a", "b")},
+            "anonymous": rng.random() < 0.3, "slow_manager": rng.choice([0.0005, 0.002, 0.01]),
+            "scripts": [rand_script(rng, logins + ["boomuser"]) for _ in range(m)],
+            "offsets": [round(rng.random() * 0.02, 4) for _ in range(m)], "latency": rng.choice([0.0005, 0.001, 0.003])}})
     return cases
